@@ -149,6 +149,18 @@ class Routes:
                     self.cmp("Array[list of tuples].GetValues", lt, rr + rr, case, au, av, vals + vals, list)
                     tt = Array(c, (tuple(vals), tuple(vals)), u).GetValues(v)
                     self.cmp("Array[tuple of tuples].GetValues", tt, rr + rr, case, au, av, vals + vals, tuple)
+                if n >= 2:
+                    # ragged rows (unequal lengths, an empty row) convert row by row too
+                    rag = [tuple(vals), tuple(vals[:1]), (), tuple(vals[1:])]
+                    rref = rr + rr[:1] + rr[1:]
+                    rx = vals + vals[:1] + vals[1:]
+                    got = Array(c, list(rag), u).GetValues(v)
+                    self.cmp("Array[ragged list of tuples].GetValues", got, rref, case, au, av, rx, list)
+                    self.ctx.ev()
+                    if [len(t) for t in got] != [len(t) for t in rag]:
+                        self.bad("Array[ragged list of tuples].GetValues", "row-lengths", case, {"got": [len(t) for t in got], "want": [len(t) for t in rag]})
+                    got = Array(c, tuple(rag), u).CreateCopy(unit=v).GetValues()
+                    self.cmp("Array[ragged tuple of tuples].CreateCopy(unit)", got, rref, case, au, av, rx, tuple)
                 a = Array(c, list(vals), u)
                 ac = a.CreateCopy(unit=v)
                 self.cmp("Array.CreateCopy(unit)", ac.values, rr, case, au, av, vals, list)
